@@ -215,7 +215,8 @@ class UTPM(Ring, RawAlgorithmsMixIn):
         if not isinstance(shp, tuple): shp = (shp,)
         if not isinstance(x_shp, tuple): x_shp = (x_shp,)
 
-        y = UTPM(numpy.zeros((D,P) + x_shp + shp))
+        dtype = numpy.result_type(float, *[xn.data.dtype for xn in xr])   # complex elements stay complex
+        y = UTPM(numpy.zeros((D,P) + x_shp + shp, dtype=dtype))
 
         yr = UTPM( y.data.reshape((D,P) + (numpy.prod(x_shp, dtype=int),) + shp))
 
@@ -3205,7 +3206,8 @@ class UTPM(Ring, RawAlgorithmsMixIn):
         colsums = numpy.array([ numpy.sum(cols[:c]) for c in range(0,Cb+1)],dtype=int)
 
         # create new matrix where the blocks will be copied into
-        tc = numpy.zeros((D, P, rowsums[-1],colsums[-1]))
+        dtype = numpy.result_type(float, *[in_X[r,c].data.dtype for r in range(Rb) for c in range(Cb)])
+        tc = numpy.zeros((D, P, rowsums[-1],colsums[-1]), dtype=dtype)
         for r in range(Rb):
             for c in range(Cb):
                 tc[:,:,rowsums[r]:rowsums[r+1], colsums[c]:colsums[c+1]] = in_X[r,c].data[:,:,:,:]
